@@ -407,10 +407,13 @@ def subscript_parts(n):
     """For an ArraySubscriptExpr: (base pointer variable name, element width in
     bytes, index node).  The base may be ``(T *)ptr`` (type punning)."""
     n = strip(n)
-    if kind(n) != "ArraySubscriptExpr":
+    if kind(n) == "UnaryOperator" and n.get("opcode") == "*":
+        # *p  is  p[0]
+        base, idx = inner(n)[0], {"kind": "IntegerLiteral", "value": "0", "type": {"qualType": "int"}}
+    elif kind(n) == "ArraySubscriptExpr":
+        base, idx = inner(n)[0], inner(n)[1]
+    else:
         return None
-    base, idx = inner(n)[0], inner(n)[1]
-    w = pointee_width(strip(base)) if kind(strip(base)) != "DeclRefExpr" else pointee_width(strip(base))
     b = strip(base)
     w = pointee_width(b)
     while kind(b) in ("CStyleCastExpr", "ParenExpr", "ImplicitCastExpr"):
@@ -420,6 +423,11 @@ def subscript_parts(n):
     if kind(b) != "DeclRefExpr":
         raise AnalysisError("memory access through a computed pointer is not modelled (line %s)" % line(n))
     return (b.get("referencedDecl") or {}).get("name"), w, idx
+
+
+def is_mem_access(n) -> bool:
+    n = strip(n)
+    return kind(n) == "ArraySubscriptExpr" or (kind(n) == "UnaryOperator" and n.get("opcode") == "*")
 
 
 def load_lanes(var: str, w: int, idx, env: LaneEnv) -> Tuple:
@@ -478,7 +486,7 @@ def eval_lanes(n, env: LaneEnv) -> Tuple:
             return env.scalars[nm]
         w = width_of_type(qtype(n))
         return (JUNK,) * w
-    if k == "ArraySubscriptExpr":
+    if k == "ArraySubscriptExpr" or (k == "UnaryOperator" and n.get("opcode") == "*"):
         var, w, idx = subscript_parts(n)
         return load_lanes(var, w, idx, env)
     if k == "BinaryOperator":
